@@ -169,6 +169,10 @@ def gen_config(rw, N, *, backends=("numba",), allow_custom=True, allow_band=True
         "force_target_nf": False,
         "backend": rw.choice(list(backends)),
     }
+    if rw.random() < 0.08:
+        cfg["verbose"] = True                      # logging path; must not change any number
+    if rw.random() < 0.1 and win in ("kaiser", "hann"):
+        cfg["win"] = {"kaiser": rw.choice(["Kaiser", "sp_kaiser"]), "hann": rw.choice(["HANN", "hanning"])}[win]   # spelling / callable variants
     if cfg["Lmin"] > N:
         cfg["Lmin"] = max(1, N // 2)
     if sched == "custom":
@@ -294,6 +298,7 @@ def analyzer_kwargs(cfg):
         order=cfg["order"], psll=cfg["psll"], win=resolve_win(cfg["win"]),
         num_patch_pts=cfg.get("num_patch_pts"), force_target_nf=cfg.get("force_target_nf", False),
         backend=cfg.get("backend", "numba"),
+        verbose=bool(cfg.get("verbose", False)),
     )
     if cfg.get("band") is not None:
         kw["band"] = (cfg["band"][0], cfg["band"][1])
